@@ -221,14 +221,25 @@ class BaseCurve(Intface_BaseCurve):
         othercopy.degree = maxdegree
         npts0 = selfcopy.npts
         npts1 = othercopy.npts
-        newknotvector = [0] * (maxdegree + npts0 + npts1 + 1)
-        newknotvector[:npts0] = selfcopy.knotvector[:npts0]
-        newknotvector[npts0:] = othercopy.knotvector[1:]
+        # The junction gets multiplicity degree + 1, so both pieces are kept
+        # as they are (continuous or not); knot_clean reduces it afterwards
+        newknotvector = list(selfcopy.knotvector[:npts0])
+        newknotvector += list(othercopy.knotvector)
         newknotvector = KnotVector(newknotvector)
-        newctrlpoints = [0] * (npts0 + npts1 - 1)
-        newctrlpoints[:npts0] = selfcopy.ctrlpoints[:npts0]
-        newctrlpoints[npts0:] = othercopy.ctrlpoints[1:]
+        newctrlpoints = list(selfcopy.ctrlpoints) + list(othercopy.ctrlpoints)
         newcurve = self.__class__(newknotvector, newctrlpoints)
+        weights0, weights1 = selfcopy.weights, othercopy.weights
+        if weights0 is not None or weights1 is not None:
+            if weights0 is None:
+                weights0 = (1,) * npts0
+            if weights1 is None:
+                weights1 = (1,) * npts1
+            # Scale each side so that the weight function is continuous
+            factor0, factor1 = weights1[0], weights0[-1]
+            newweights = [factor0 * weight for weight in weights0]
+            newweights += [factor1 * weight for weight in weights1]
+            newcurve.weights = newweights
+            return newcurve
         newcurve.knot_clean([umaxleft])
         return newcurve
 
